@@ -96,7 +96,10 @@ package isaacdatabase
 //@ func (*Center).findTemp
 //@   prop C19
 //@   requires db != nil && forall(k, 0 <= k && k < len(db.temps) ==> db.temps[k] != nil)
+//@   requires forall(k, 0 <= k && k < len(db.temps) ==> db.temps[k].Height() == db.temps[0].Height() - k && db.temps[k].Height() >= 0 && db.temps[k].Height() < 4611686018427387904)
+//@   requires height >= 0 && height < 4611686018427387904
 //@   ensures r0 == nil || exists(k, 0 <= k && k < len(db.temps) && r0 == db.temps[k])
+//@   ensures [at-height] r0 != nil ==> r0.Height() == height
 // A proof found among the temporaries for suffrage height s belongs to a block
 // whose suffrage height is exactly s.
 //@ func (*Center).suffrageProofInTemps
@@ -111,5 +114,8 @@ package isaacdatabase
 //@ func (*Center).SuffrageProofByBlockHeight
 //@   prop C19
 //@   requires db != nil && db.perm != nil && forall(k, 0 <= k && k < len(db.temps) ==> db.temps[k] != nil)
+//@   requires forall(k, 0 <= k && k < len(db.temps) ==> db.temps[k].Height() == db.temps[0].Height() - k && db.temps[k].Height() >= 0 && db.temps[k].Height() < 4611686018427387904)
+//@   requires height < 4611686018427387904
 //@   callsite SuffrageProofByBlockHeight requires a0 <= height
+//@   callsite SuffrageProof requires recv.Height() <= height
 //@   loop 0 invariant forall(k, 0 <= k && k < len(temps) ==> temps[k] != nil)
